@@ -38,7 +38,12 @@ pub fn drive(t: &mut Tracer, r: &mut Rng, n: usize) {
                 2 => { t.call("Zoned.wall", json!({"zone": zone, "t": near(r, &ats, 4000)})); }
                 _ => { let o = *r.pick(&offs); let w = near(r, &ats, 50_000) + o;
                     let (k, off) = match r.range(0, 5) { 0 => ("none", 0), 1 => ("z", 0), 2 => ("offset", *r.pick(&offs)), 3 => { let x = *r.pick(&offs); ("offset", ((x.abs() + 30) / 60 * 60) * x.signum()) }, _ => ("offset", r.range(-14, 14) * 3600 + r.range(0, 59) * 60) };
-                    t.call("Zoned.fromStr", json!({"zone": zone, "w": w, "offk": k, "off": off, "dis": *r.pick(&DIS), "offopt": *r.pick(&OFFOPT)})); }
+                    if k != "z" && off % 60 == 0 && r.chance(1, 2) {
+                        // the same input as a property bag (offset of whole minutes)
+                        t.call("Zoned.fromPartial", json!({"zone": zone, "w": w, "offk": k, "offmin": off / 60, "dis": *r.pick(&DIS), "offopt": *r.pick(&OFFOPT)}));
+                    } else {
+                        t.call("Zoned.fromStr", json!({"zone": zone, "w": w, "offk": k, "off": off, "dis": *r.pick(&DIS), "offopt": *r.pick(&OFFOPT)}));
+                    } }
             }
         }
         t.reset();
